@@ -6,6 +6,8 @@ import (
 	"image"
 	"os"
 	"path/filepath"
+	"strings"
+	"verifmc/machine"
 
 	"verifmc/explore"
 )
@@ -20,9 +22,34 @@ type c26Twin struct {
 	Frames int    `json:"frames"`
 }
 
+// synthetic guest programs that put the machine into states no bundled ROM reaches: the frame loop must keep
+// stepping every component 17,556 times per frame whatever the CPU is doing
+var c26Synthetic = map[string][]byte{
+	// timer running, then STOP: the CPU sits in STOP mode for the rest of the run
+	"synthetic:stop": machine.Program(map[uint16][]byte{0x100: {0x3e, 0x05, 0xe0, 0x07, 0x3e, 0x04, 0xe0, 0xff, 0x06, 0x00, 0x04, 0x20, 0xfd, 0x10, 0x00, 0x04, 0x18, 0xfd}}),
+	// HALT with interrupts disabled and nothing enabled: idles forever
+	"synthetic:halt-forever": machine.Program(map[uint16][]byte{0x100: {0xf3, 0x3e, 0x05, 0xe0, 0x07, 0xaf, 0xe0, 0xff, 0x76, 0x00, 0x18, 0xfc}}),
+	// LCD and sound switched off, timer fast, busy loop writing to work RAM
+	"synthetic:lcd-and-sound-off": machine.Program(map[uint16][]byte{0x100: {0xaf, 0xe0, 0x40, 0xe0, 0x26, 0x3e, 0x05, 0xe0, 0x07, 0x21, 0x00, 0xc0, 0x34, 0x2c, 0x18, 0xfc}}),
+	// MBC3 with the cartridge clock halted, then an OAM DMA every loop
+	"synthetic:rtc-halted-dma": machine.ProgramCart(0x10, 0x03, map[uint16][]byte{0x100: {0x3e, 0x0a, 0xea, 0x00, 0x00, 0x3e, 0x0c, 0xea, 0x00, 0x40, 0x3e, 0x40, 0xea, 0x00, 0xa0,
+		0x3e, 0xc0, 0xe0, 0x46, 0x06, 0x40, 0x05, 0x20, 0xfd, 0x18, 0xf6}}),
+}
+
+func c26ROMPath(c *Ctx, name string) string {
+	if img, ok := c26Synthetic[name]; ok {
+		p := filepath.Join(c.Scratch, strings.ReplaceAll(name, ":", "-")+".gb")
+		if _, err := os.Stat(p); err != nil {
+			os.WriteFile(p, img, 0o644)
+		}
+		return p
+	}
+	return filepath.Join(c.Repo, "gameboy/testdata", name)
+}
+
 func c26TwinCheck(c *Ctx) func(l *explore.Local, _ struct{}, cs c26Twin) *explore.Fail {
 	return func(l *explore.Local, _ struct{}, cs c26Twin) *explore.Fail {
-		rom := filepath.Join(c.Repo, "gameboy/testdata", cs.ROM)
+		rom := c26ROMPath(c, cs.ROM)
 		a := newGB(rom, cs.Video, cs.Audio, true)
 		b := newGB(rom, cs.Video, cs.Audio, true)
 		ctx := context.Background()
@@ -198,7 +225,8 @@ func init() {
 		}
 		roms := []string{"blargg/instr_timing/instr_timing.gb", "blargg/cpu_instrs/individual/02-interrupts.gb", "blargg/dmg_sound/rom_singles/03-trigger.gb",
 			"blargg/oam_bug/rom_singles/2-causes.gb", "mts-20221022-1430-8d742b9/acceptance/oam_dma_timing.gb", "rtc3test/rtc3test.gb",
-			"mts-20221022-1430-8d742b9/acceptance/timer/rapid_toggle.gb", "blargg/mem_timing/mem_timing.gb", "blargg/halt_bug.gb"}
+			"mts-20221022-1430-8d742b9/acceptance/timer/rapid_toggle.gb", "blargg/mem_timing/mem_timing.gb", "blargg/halt_bug.gb",
+			"synthetic:stop", "synthetic:halt-forever", "synthetic:lcd-and-sound-off", "synthetic:rtc-halted-dma"}
 		befores := []int{0, 1, 2, 7}
 		if c.Thorough() {
 			befores = []int{0, 1, 2, 7, 30, 120}
